@@ -114,17 +114,21 @@ def analyse(rec):
                 fails.append({"why": "the cheater's HTLC transaction %s (spending output %d) confirmed and its output was not punished" % (s, v), "outpoint": op2})
         elif s not in btx:
             fails.append({"why": "output %d of the revoked commitment was spent by an unknown transaction %s" % (v, s)})
-    # re-broadcast discipline: same input set => feerate does not decrease
-    by_inputs = {}
-    min_delta = None
+    # re-broadcast discipline: for the same input set, the best feerate offered does not decrease from one
+    # block to the next (within one block the old transaction may be re-announced next to its replacement)
+    per_block = {}
     for h, t in bcast_seq:
         key = tuple(sorted(i["prev"] for i in t["inputs"]))
-        if key in by_inputs:
-            d = t["feerate"] - by_inputs[key]
-            min_delta = d if min_delta is None else min(min_delta, d)
-            if d < -3:
-                fails.append({"why": "a claim was re-broadcast with a lower feerate (%d -> %d sat/kw)" % (by_inputs[key], t["feerate"]), "txid": t["txid"]})
-        by_inputs[key] = max(by_inputs.get(key, 0), t["feerate"])
+        d = per_block.setdefault(key, {})
+        d[h] = max(d.get(h, 0), t["feerate"])
+    min_delta = None
+    for key, d in per_block.items():
+        hs = sorted(d)
+        for a, b in zip(hs, hs[1:]):
+            delta = d[b] - d[a]
+            min_delta = delta if min_delta is None else min(min_delta, delta)
+            if delta < -3:
+                fails.append({"why": "a claim was re-broadcast with a lower feerate (%d sat/kw at height %d -> %d at height %d)" % (d[a], a, d[b], b), "inputs": list(key)})
     stats["rebroadcast_min_feerate_delta"] = min_delta
     # the end: nothing left claimable, everything recovered is reported spendable, value conserved
     if rec.get("final_balances"):
